@@ -73,6 +73,7 @@ def _work(case):
             continue
         r['tabs'] = {k: tabs[k] for k in TABLES}
         r['varlist'] = tabs['varlist']
+        r['nd_dom'] = tabs['nd_dom']
         r['doms'] = sp.doms_literal()
         r['size'] = sp.size
         want = gg.oracle_tables(case, flags, sp)
@@ -123,11 +124,16 @@ def coq_group(i, case, results):
             f'    (graph_to_logic ND {gg.blit(ign)} {gg.blit(rec)} '
             f'{gg.blit(sl)} g{i})\n'
             f'    {gg.nlit(t["env_init"])} {gg.nlit(t["sys_init"])}\n'
-            f'    {gg.nslit(t["env_action"])}\n'
-            f'    {gg.nslit(t["sys_action"])}.')
+            f'    {gg.rle_lit(t["env_action"])}\n'
+            f'    {gg.rle_lit(t["sys_action"])}.')
         for k, name in enumerate(TABLES):
             terms.append(f'nth {k} r{i}_{j} false')
             keys.append((i, j, name))
+        ids = lambda names: '[' + '; '.join(gg.VAR_ID[n] for n in names) + ']'
+        terms.append(f'agree_decl g{i} {gg.zlit(r["nd_dom"][0])} '
+                     f'{gg.zlit(r["nd_dom"][1])} '
+                     f'{ids(r["varlist"]["env"])} {ids(r["varlist"]["sys"])}')
+        keys.append((i, j, 'declarations'))
     return ('\n'.join(defs), terms), keys
 
 
@@ -146,21 +152,27 @@ def gen_cases(ctx):
                 fam.append('corpus')
     if ctx.thorough:
         exh = list(gg.exhaustive_cases(3, 4, seed=ctx.seed))
-        n_rand, nfl, max_bits = 2500, 8, 7
+        n_rand, nfl, max_bits = 2000, 8, 6
     else:
-        # every multigraph with <= 2 nodes, and every 24th with 3 nodes
+        # every multigraph with <= 2 nodes, and every 32nd with 3 nodes
         exh = list(gg.exhaustive_cases(2, 4, seed=ctx.seed))
         n2 = gg.exhaustive_count(2, 4)
         exh += [c for c in gg.exhaustive_cases(
-            3, 4, seed=ctx.seed, stride=24, offset=ctx.seed)
+            3, 4, seed=ctx.seed, stride=32, offset=ctx.seed)
             if c['exh_index'] >= n2]
-        n_rand, nfl, max_bits = 500, 4, 6
+        n_rand, nfl, max_bits = 400, 4, 6
     cases += exh
     fam += ['exhaustive'] * len(exh)
     for _ in range(n_rand):
         c = gg.random_case(rng, max_nodes=5, max_bits=max_bits)
         c['flags'] = (gg.ALL_FLAGS if nfl == 8
                       else rng.sample(gg.ALL_FLAGS, nfl))
+        cases.append(c)
+        fam.append('random')
+    # larger state spaces (128 valuations, 16384 pairs per action table)
+    for _ in range(200 if ctx.thorough else 12):
+        c = gg.random_case(rng, max_nodes=5, max_bits=7)
+        c['flags'] = rng.sample(gg.ALL_FLAGS, 2)
         cases.append(c)
         fam.append('random')
     return cases, fam
@@ -254,14 +266,17 @@ def correspond(ctx):
                 f'{name} differs from the Coq model',
                 dict(_case_json(cases[i], results[i][j]['flags']),
                      table=name),
-                impl=_short(results[i][j]['tabs'][name])))
+                impl=_short(results[i][j]['tabs'][name]
+                            if name in TABLES else
+                            dict(nd_dom=results[i][j]['nd_dom'],
+                                 varlist=results[i][j]['varlist']))))
     ctx.cov['evaluations'] += len(res)
     ctx.cov['distinct_nontrivial'] += nontrivial
     ctx.cov['exhaustive'] = (
         'all multigraphs with <= 3 nodes and <= 4 edges over the 3-label '
         'edge alphabet EXH_ELABELS (33320 graphs)' if ctx.thorough else
         'all multigraphs with <= 2 nodes and <= 4 edges over EXH_ELABELS '
-        '(1855 graphs) and every 24th of the 3-node ones')
+        '(1855 graphs) and every 32nd of the 3-node ones')
     ctx.cov['rule'] = (
         'exhaustive family: multigraphs on nodes 0..n-1 (edges = multisets '
         'of (u, v, label), label in {none, partial assignment to a primed '
@@ -274,10 +289,17 @@ def correspond(ctx):
         'assignments to x, x\', y, y\', z, z\' and to an undeclared key; y in '
         '0..1, 0..2, 0..3 or -1..1; env_vars random; both owners; flags: '
         'all 8 combinations (thorough) or 4 of them (quick); both dd back '
-        'ends. Compared: truth tables of env/sys init and action over ALL '
-        'bit-range valuations (current x next) with the Gallina model '
-        'evaluated by vm_compute. non-trivial = owner action neither empty '
-        'nor full')
+        'ends; 8-64 valuations per case, plus a few cases with 128 '
+        '(16384 pairs per action table); 4% of the random graphs give a '
+        'Boolean as 0/1 (refused by logicizer._assign: counted as '
+        'rejected), graphs without initial nodes with ignore_initial=False '
+        'are rejected too. Compared per run: truth tables of env/sys init '
+        'and env/sys action over ALL bit-range valuations (current x next), '
+        'the declared range of the node variable and the env/sys variable '
+        'lists, with the Gallina model evaluated by vm_compute; every run '
+        'is also compared with a direct explicit-graph evaluation of the '
+        'property statement (search oracle). non-trivial = owner action '
+        'neither empty nor full')
     k = next((i for i, f in enumerate(fam) if f == 'random'), 0)
     ctx.cov['samples'] = [dict(_case_json(cases[k]),
                                result={n: _short(v) for n, v in
